@@ -255,8 +255,27 @@ def run_engine(prop, tier, seed, extra_args=None):
             sys.stdout.write(out)
             print("INFRA: harness exited with status %d in configuration %s" % (p.returncode, cfg))
             infra = True
-    wall = time.time() - t0
     extra = {}
+    if tier == "thorough" and not violations and os.environ.get("FCV_NO_FUZZ") != "1":
+        info, rp = fuzz_supplement(prop, seed)
+        if info:
+            extra["libfuzzer_supplement"] = info
+        if rp:
+            # confirm with the ordinary replay path (oracles outside libFuzzer)
+            rc = replay(prop, rp)
+            if rc == 1:
+                violations += 1
+                viol_lines.append("VIOLATION property=%s replay=%s" % (prop, rp))
+            else:
+                extra["libfuzzer_supplement"]["note"] = "libFuzzer reported a crash that the replay did not confirm (exit %d); not counted" % rc
+    if tier == "thorough" and prop == "C02" and not violations and os.environ.get("FCV_NO_MIRI") != "1":
+        info, rp = miri_supplement(prop, seed)
+        extra["miri_supplement"] = info
+        if rp:
+            violations += 1
+            print("  Miri reported undefined behaviour (or the harness oracle failed) while executing a generated case: %s" % "; ".join(info.get("miri_error", [])))
+            print("VIOLATION property=%s replay=%s" % (prop, rp))
+    wall = time.time() - t0
     if skipped:
         extra["skipped_configurations"] = skipped
     if frags:
@@ -272,6 +291,131 @@ def run_engine(prop, tier, seed, extra_args=None):
     print("%s %s: held on %d generated cases (%d distinct non-trivial) in %s, %.1fs"
           % (prop, tier, tot, nt, "+".join(f.get("config", "?") for f in frags), wall))
     return 0
+
+
+FUZZ_TARGET = {"C01": "comb", "C02": "comb", "C03": "comb", "C05": "comb", "C07": "comb", "C08": "comb", "C09": "comb", "C11": "comb",
+               "C12": "comb", "C16": "comb", "C20": "comb", "C13": "co", "C14": "co", "C15": "co"}
+
+
+def fuzz_supplement(prop, seed):
+    """Thorough tier only: a bounded coverage-guided libFuzzer campaign over
+    the same decoder and the same in-target oracles (std configuration, ASan).
+    A supplement: its executions are counted separately and a budget hit or a
+    build problem is never a verdict. Returns (info, violation_replay)."""
+    target = FUZZ_TARGET.get(prop)
+    if not target:
+        return None, None
+    fuzz = os.path.join(ROOT, "fuzz")
+    lock = os.path.join(fuzz, "Cargo.lock")
+    if not os.path.exists(lock):
+        subprocess.run(["cp", os.path.join(HARNESS, "Cargo.lock"), lock], check=False)
+    feats = ["--features", "co"] if target == "co" else []
+    t0 = time.time()
+    b = subprocess.run(["cargo", "+nightly", "fuzz", "build", "--fuzz-dir", fuzz, target] + feats, env=env(), cwd=fuzz,
+                       stdout=subprocess.PIPE, stderr=subprocess.STDOUT, text=True)
+    if b.returncode != 0:
+        return {"skipped": "the libFuzzer target does not build: " + b.stdout[-300:]}, None
+    corpus = os.path.join(fuzz, "corpus", "%s-%s" % (target, prop))
+    arts = os.path.join(fuzz, "artifacts", "%s-%s" % (target, prop)) + "/"
+    subprocess.run(["rm", "-rf", corpus, arts])
+    os.makedirs(corpus)
+    os.makedirs(arts)
+    jobs = int(os.environ.get("FCV_FUZZ_JOBS", "8"))
+    runs = int(os.environ.get("FCV_FUZZ_RUNS", "150000"))
+    e = env()
+    e["FCV_FUZZ_PROP"] = prop
+    cmd = ["cargo", "+nightly", "fuzz", "run", "--fuzz-dir", fuzz, target] + feats + [corpus, "--",
+           "-runs=%d" % runs, "-max_len=600", "-len_control=0", "-seed=%d" % ((seed % 2000000000) + 1), "-jobs=%d" % jobs, "-workers=%d" % jobs,
+           "-max_total_time=900", "-artifact_prefix=" + arts, "-print_final_stats=1"]
+    p = subprocess.run(cmd, env=e, cwd=fuzz, stdout=subprocess.PIPE, stderr=subprocess.STDOUT, text=True)
+    execs = 0
+    new_units = 0
+    logs = p.stdout
+    for f in sorted(os.listdir(fuzz)):
+        if f.startswith("fuzz-") and f.endswith(".log"):
+            try:
+                logs += open(os.path.join(fuzz, f)).read()
+            except Exception:
+                pass
+            os.remove(os.path.join(fuzz, f))
+    for line in logs.splitlines():
+        if line.startswith("stat::number_of_executed_units:"):
+            execs += int(line.split()[-1])
+        if line.startswith("stat::new_units_added:"):
+            new_units += int(line.split()[-1])
+    info = {"target": target, "executions": execs, "new_units_added": new_units, "jobs": jobs, "wall_s": round(time.time() - t0, 1),
+            "sanitizer": "address", "config": "std"}
+    crashes = [f for f in os.listdir(arts) if f.startswith("crash-")]
+    replay_path = None
+    if crashes:
+        data = open(os.path.join(arts, crashes[0]), "rb").read()
+        os.makedirs(REPLAYS, exist_ok=True)
+        import hashlib
+        replay_path = os.path.join(REPLAYS, "%s-std-libfuzzer-%s.json" % (prop, hashlib.sha1(data).hexdigest()[:16]))
+        msg = [l for l in logs.splitlines() if l.startswith("VIOLATION ") or l.startswith("case: ")]
+        with open(replay_path, "w") as f:
+            json.dump({"property": prop, "config": "std", "engine": "co" if target == "co" else "libfuzzer", "bytes": data[1:].hex(),
+                       "found_by": "libFuzzer", "messages": msg[:4]}, f, indent=1)
+            f.write("\n")
+        info["crash_input"] = crashes[0]
+    subprocess.run(["rm", "-rf", corpus, arts])
+    return info, replay_path
+
+
+def miri_supplement(prop, seed):
+    """Thorough tier of C02 only: a sample of generated cases is executed under
+    Miri (std configuration), so that reads of uninitialised output slots,
+    double frees and use-after-free in the ManuallyDrop/MaybeUninit code are
+    failures even where the drop counters cannot see them. A supplement: a
+    build problem or a timeout is never a verdict. Returns (info, replay)."""
+    procs = int(os.environ.get("FCV_MIRI_PROCS", "16"))
+    cases = int(os.environ.get("FCV_MIRI_CASES", "40"))
+    e = env()
+    e["MIRIFLAGS"] = "-Zmiri-ignore-leaks"
+    tdir = os.path.join(HARNESS, "target-miri")
+    base = ["cargo", "+nightly", "miri", "run", "--manifest-path", os.path.join(HARNESS, "Cargo.toml"), "--target-dir", tdir, "--bin", "fcv", "--"]
+    t0 = time.time()
+    # build once (sysroot + harness), then fan out
+    b = subprocess.run(base + ["miri", "--prop", prop, "--cases", "0"], env=e, stdout=subprocess.PIPE, stderr=subprocess.STDOUT, text=True)
+    if b.returncode != 0 or "miri-done" not in b.stdout:
+        return {"skipped": "the harness does not run under Miri here: " + b.stdout[-300:]}, None
+    ps = []
+    for k in range(procs):
+        ps.append(subprocess.Popen(base + ["miri", "--prop", prop, "--cases", str(cases), "--seed", str(seed * 1000 + k)], env=e,
+                                   stdout=subprocess.PIPE, stderr=subprocess.STDOUT, text=True))
+    done = 0
+    nontrivial = 0
+    bad = None
+    for p in ps:
+        try:
+            out, _ = p.communicate(timeout=1800)
+        except subprocess.TimeoutExpired:
+            p.kill()
+            continue
+        last_case = None
+        for line in out.splitlines():
+            if line.startswith("case "):
+                last_case = line.split()[2] if len(line.split()) > 2 else ""
+                done += 1
+            if line.startswith("miri-done"):
+                nontrivial += int(line.split("nontrivial=")[1])
+        if p.returncode != 0 and bad is None and last_case is not None:
+            msg = [l for l in out.splitlines() if "error:" in l or l.startswith("VIOLATED")][:3]
+            bad = (last_case, msg)
+    info = {"cases_under_miri": done, "nontrivial": nontrivial, "processes": procs, "wall_s": round(time.time() - t0, 1),
+            "flags": "-Zmiri-ignore-leaks (leaks are judged by the drop counters)", "config": "std"}
+    rp = None
+    if bad:
+        import hashlib
+        os.makedirs(REPLAYS, exist_ok=True)
+        rp = os.path.join(REPLAYS, "%s-std-miri-%s.json" % (prop, hashlib.sha1(bad[0].encode()).hexdigest()[:16]))
+        with open(rp, "w") as f:
+            json.dump({"property": prop, "config": "std", "engine": "miri", "bytes": bad[0], "found_by": "Miri", "messages": bad[1],
+                       "how_to_replay_under_miri": "cd /verif/harness && MIRIFLAGS=-Zmiri-ignore-leaks cargo +nightly miri run --target-dir target-miri --bin fcv -- replay --prop %s --file <this file>" % prop},
+                      f, indent=1)
+            f.write("\n")
+        info["miri_error"] = bad[1]
+    return info, rp
 
 
 def cfg_label(b):
@@ -312,6 +456,20 @@ def replay(prop, path):
     if meta.get("engine") == "autotraits":
         import autotraits
         return autotraits.replay(path)
+    if meta.get("engine") == "miri":
+        e = env()
+        e["MIRIFLAGS"] = "-Zmiri-ignore-leaks"
+        p = subprocess.run(["cargo", "+nightly", "miri", "run", "--manifest-path", os.path.join(HARNESS, "Cargo.toml"), "--target-dir",
+                            os.path.join(HARNESS, "target-miri"), "--bin", "fcv", "--", "replay", "--file", path, "--prop", prop],
+                           env=e, stdout=subprocess.PIPE, stderr=subprocess.STDOUT, text=True)
+        sys.stdout.write(p.stdout[-3000:])
+        if p.returncode == 0:
+            return 0
+        if "Undefined Behavior" in p.stdout or "VIOLATION property=" in p.stdout:
+            if "VIOLATION property=" not in p.stdout:
+                print("VIOLATION property=%s replay=%s" % (prop, path))
+            return 1
+        return 2
     cfg = meta.get("config", "std")
     cfg = {"no_std": "nostd"}.get(cfg, cfg)
     if meta.get("engine") == "co" or (meta.get("engine") == "regress" and prop in ("C13", "C14", "C15")):
